@@ -53,7 +53,11 @@ def gen_one(rng, tier):
         if k < 0.45:
             prio = rng.choice(prios) if rng.random() < 0.6 else None
             reuse = rng.randrange(6) if rng.random() < 0.2 else None
-            ops.append(['addp', rng.randrange(ncls), prio, reuse])
+            act = None
+            if rng.random() < 0.12:
+                act = rng.choice([['rm_self'], ['rm', rng.randrange(ncls)],
+                                  ['add', rng.randrange(ncls)]])
+            ops.append(['addp', rng.randrange(ncls), prio, reuse, act])
         elif k < 0.6:
             ops.append(['rmp', rng.randrange(ncls)])
         elif k < 0.9:
@@ -82,6 +86,10 @@ def run_case(case):
 
         def process(self, dt=1):
             log.append(('proc', self.uid, dt))
+            act = getattr(self, 'act', None)
+            if act is not None:
+                self.act = None
+                inframe(self, act)
         ns['process'] = process
         if spec['prio'] is not None:
             ns['priority'] = spec['prio']
@@ -129,7 +137,56 @@ def run_case(case):
     def fail(at, kind, what, expected, observed, **kw):
         res.div(at, kind, what, expected=expected, observed=observed, **kw)
 
+    frame = {'changed': set(), 'life': []}
+
+    def model_remove(got):
+        by_type.pop(type(got))
+        order[:] = [x for x in order if x[2] is not got]
+        removed_ever.add(got.uid)
+        frame['changed'].add(got.uid)
+        frame['life'].append(expect_life('remove', got))
+
+    def model_add(q, prio):
+        nonlocal seq
+        t = type(q)
+        if t in by_type:
+            model_remove(by_type[t])
+        seq += 1
+        order.append((prio, seq, q))
+        order.sort(key=lambda x: (x[0], x[1]))
+        by_type[t] = q
+        removed_ever.discard(q.uid)
+        frame['changed'].add(q.uid)
+        frame['life'].append(expect_life('add', q))
+
+    def inframe(actor, act):
+        """A processor changes the registrations while the frame runs."""
+        res.stats['inframe_acts'] += 1
+        if act[0] == 'add':
+            q = classes[act[1]]()
+            q.uid = len(instances)
+            q.cls_index = act[1]
+            instances.append(q)
+            readable = q.priority
+            w.add_processor(q)
+            model_add(q, readable)
+            return
+        t = type(actor) if act[0] == 'rm_self' else classes[act[1]]
+        match = [x for ct, x in by_type.items() if issubclass(ct, t)]
+        got = w.remove_processor(t)
+        legal = [by_type[t]] if t in by_type else match
+        if (not legal and got is not None) or (
+                legal and not any(got is x for x in legal)):
+            frame['bad'] = ([x.uid for x in legal],
+                            getattr(got, 'uid', repr(got)))
+            return
+        if legal:
+            model_remove(got)
+
     for at, op in enumerate(case['ops']):
+        frame['changed'] = set()
+        frame['life'] = []
+        frame.pop('bad', None)
         del log[:]
         name = op[0]
         want_life = []
@@ -142,6 +199,7 @@ def run_case(case):
                     p.uid = len(instances)
 
                     p.cls_index = op[1]
+                    p.act = op[4] if len(op) > 4 else None
                     instances.append(p)
                 t = type(p)
                 readable = p.priority
@@ -194,9 +252,30 @@ def run_case(case):
                     want_life.append(expect_life('remove', got))
             elif name == 'process':
                 dt = 1000 + at
+                at_start = list(order)
                 w.process(dt)
-                calls = [(e[1], e[2]) for e in log if e[0] == 'proc']
-                want = [(x[2].uid, dt) for x in order]
+                want_life += [x for x in frame['life']]
+                if 'bad' in frame:
+                    fail(at, 'remove-returned', 'remove_processor (called from '
+                         'inside a frame) returned a non-matching object',
+                         frame['bad'][0], frame['bad'][1])
+                    break
+                changed = frame['changed']
+                calls = [(e[1], e[2]) for e in log if e[0] == 'proc'
+                         and e[1] not in changed]
+                # processors (un)registered during the frame: at most once
+                for uid in changed:
+                    n = sum(1 for e in log if e[0] == 'proc' and e[1] == uid)
+                    if n > 1:
+                        fail(at, 'process-calls', f'processor {uid} called '
+                             f'{n} times in one frame', '<=1', n)
+                        break
+                if res.divs:
+                    break
+                if changed:
+                    res.stats['dontcare_changed_during_frame'] += len(changed)
+                want = [(x[2].uid, dt) for x in at_start
+                        if x[2].uid not in changed]
                 res.stats['process_calls_checked'] += 1
                 res.tags['frame_size'].add(len(order))
                 if calls != want:
